@@ -156,6 +156,8 @@ def run(R):
              "(established for normalize_template separately)", "exact arithmetic")
     R.out_of_claim("NOT DECIDED: FFT accuracy; MatchedFilter._compute's argmax/unravel_index bookkeeping; invariance under offset/scale (needs C15's estimators); "
                    "gaussian/lorentzian generators; recovery of a noiseless boxcar (follows from the response formula, not checked end to end)")
+    from .. import kvalid
+    kvalid.validate(R, ["normalize_template", "circular_pad_goodsize"])
     chunks = [items[i::12] for i in range(12)]
     parts = R.pmap(batch, chunks)
     R.vacuity_witness("c13", sum(p.reached for p in parts) > 0)
